@@ -150,7 +150,7 @@ def ks_for(n):
 
 def sweep(ctx, exe, bases, tag):
     """-> sweep cases (each base without fault, then failat k / failfrom k for the k's of ks_for(N))."""
-    outs, crashes = vlib.run_stream([exe], bases, ctx.tmp, tag + "-count", env=vlib.ASAN_ENV)
+    outs, crashes = vlib.run_stream([exe], bases, ctx.tmp, tag + "-count", env=dict(vlib.ASAN_ENV, H_UPPER_TMP=ctx.tmp))
     cases = []
     stats = {"bases": len(bases), "allocations_in_bases": 0}
     for i, base in enumerate(bases):
@@ -212,7 +212,7 @@ def make_components(ctx):
              "network_read / netbuf writer (write and reserve+consume) / netbuf reader (wait+peek+consume) / http_request "
              "(content-length, chunked, 1xx then close-delimited) / humansize / sock_addr_prettyprint over real socketpairs "
              "x {no fault, failat k, failfrom k : every k}; judged by the L1 rules of pmodel upmon only",
-        monitor_args=["upmon"], ldflags=[WRAP + ",--wrap=poll"], ignore_l2=True, **common)
+        monitor_args=["upmon"], ldflags=[WRAP + ",--wrap=poll"], ignore_l2=True, env={"H_UPPER_TMP": ctx.tmp}, **common)
     return [(cont, bases_containers), (ev, bases_events), (up, bases_upper)]
 
 
